@@ -61,7 +61,8 @@ def run(tier):
                    "rule": "histories of 2-5 inputs (valid, failing, recovering, with a failing action) on ONE compiled parser object, compared with fresh objects and with the model; "
                            "lexers: k Scan calls, Reset, more Scan calls, compared with the tokens of the fresh lexer and with the model; non-trivial = histories with at least two "
                            "different inputs / resets after at least one call",
-                   "history_outcomes": kinds, "parser_histories": hists, "lexer_resets": resets,
-                   "samples": [r["hists"][0] for r in res if r["hists"]][:2]})
+                   "history_outcomes": kinds, "parser_histories": hists,
+                   "histories_with_input_over_100_tokens": sum(1 for r in res for h in r["hists"] if any(len(x) > 100 for x in h["hist"])), "lexer_resets": resets,
+                   "samples": [dict(h, hist=[x[:40] for x in h["hist"]], line=h["line"][:300], impl=h["impl"][:300], model=h["model"][:300], fresh=h["fresh"][:300]) for h in [r["hists"][-1] for r in res if r["hists"]][:2]]})
     ck.assumptions += ["attribute values are immutable in the model (popN aliases the stack's backing array; an action retaining X itself is outside the model)"]
     return ck.finish()
